@@ -203,6 +203,8 @@ pub enum MutOp {
     SetBytes(Vec<u8>),
     XorU8(u8),
     SetU8(u8),
+    /// swap two elements of a vector
+    SwapElems(usize, usize),
     /// XOR a leaf u128 with the probed global key of a party (dynamic, read in the same poll)
     XorDeltaOf(usize),
 }
@@ -297,6 +299,7 @@ pub fn apply(s: &Sch, x: &mut Val, m: &TreeMut, rng: &mut impl Rng) -> bool {
         (MutOp::Empty, Val::Vec(v)) if !v.is_empty() => { v.clear(); true }
         (MutOp::Halve, Val::Vec(v)) if v.len() >= 2 => { let h = v.len() / 2; v.truncate(h); true }
         (MutOp::SwapFirstTwo, Val::Vec(v)) if v.len() >= 2 && v[0] != v[1] => { v.swap(0, 1); true }
+        (MutOp::SwapElems(a, b), Val::Vec(v)) if *a < v.len() && *b < v.len() && v[*a] != v[*b] => { v.swap(*a, *b); true }
         _ => false,
     }
 }
